@@ -119,3 +119,40 @@ Proof.
   intros c [<-|[<-|[<-|[]]]]; split; try (intros _; reflexivity);
     intros s Hs; vm_compute in Hs; intuition; subst; reflexivity.
 Qed.
+
+(** liquibase: the rollback statements are "--rollback: " comment lines of their own changeset;
+    a rollback of the file reads the changesets from the last to the first
+    ([liquibase_down], a line reader).  The full statement -- for every change list the rollback
+    lines read back as [flat_map ReverseStmts (rev changes)] -- is false of the template:      *)
+Theorem C17_downfile_liquibase_refuted :
+  exists (now : bytes) (changes : list mchange),
+    liquibase_down now changes <> flat_map ReverseStmts (List.rev changes).
+Proof.
+  (* DROP TABLE t with reverse "CREATE TABLE t (\n  c int\n)" (an indented plan) *)
+  exists [50%N], [MChange [68;82;79;80]%N [] (RStr [67;82;69;65;84;69;32;116;32;40;10;32;32;99;32;105;110;116;10;41]%N)].
+  vm_compute. discriminate.
+Qed.
+Print Assumptions C17_downfile_liquibase_refuted.
+
+(** What holds: when no reverse statement (and no comment, and not the timestamp) contains a
+    newline and no line of a [Cmd] starts with "--rollback: ", the rollback lines read back
+    exactly, changesets last to first. *)
+Theorem C17_downfile_liquibase_except :
+  forall now changes, no_nl now = true -> (forall c, In c changes -> lq_change_ok c) ->
+  liquibase_file now changes = s_lq_header ++ concat (lq_changeset_texts now 0 changes) /\
+  liquibase_down now changes = flat_map ReverseStmts (List.rev changes).
+Proof.
+  intros now changes Hn H. split.
+  - unfold liquibase_file. now rewrite liquibase_file_texts.
+  - now apply liquibase_down_lemma.
+Qed.
+Print Assumptions C17_downfile_liquibase_except.
+
+Example C17_downfile_liquibase_nonvacuous :
+  (forall c, In c ex_changes -> lq_change_ok c) /\
+  liquibase_down [50%N] ex_changes = [[82;51;97]%N; [82;51;98]%N; [82;49]%N].
+Proof.
+  split; [|vm_compute; reflexivity].
+  intros c [<-|[<-|[<-|[]]]]; (split; [reflexivity|split; [reflexivity|]]);
+    intros s Hs; vm_compute in Hs; intuition; subst; reflexivity.
+Qed.
